@@ -103,6 +103,18 @@ def close_pool() -> None:
         _POOL = None
 
 
+def _guarded(job):
+    """Run one job in a worker; a BaseException (HarnessError included) must not kill the worker process
+    (multiprocessing would then wait for ever): it is sent back and re-raised in the parent."""
+    func, item = job
+    try:
+        return ("ok", func(item))
+    except BaseException as exc:  # noqa: BLE001
+        import traceback
+
+        return ("err", type(exc).__name__, str(exc), traceback.format_exc()[-1500:])
+
+
 def pmap(func: Callable, items: Iterable, workers: int = NCPU, chunksize: int | None = None) -> list:
     """Ordered parallel map (func must be a module-level function)."""
     items = list(items)
@@ -110,7 +122,15 @@ def pmap(func: Callable, items: Iterable, workers: int = NCPU, chunksize: int | 
         return [func(i) for i in items]
     if chunksize is None:
         chunksize = max(1, len(items) // (workers * 8))
-    return pool(workers).map(func, items, chunksize=chunksize)
+    out = []
+    for r in pool(workers).map(_guarded, [(func, i) for i in items], chunksize=chunksize):
+        if r[0] == "ok":
+            out.append(r[1])
+        elif r[1] == "HarnessError":
+            raise HarnessError(r[2])
+        else:
+            raise HarnessError(f"a worker crashed: {r[1]}: {r[2]}\n{r[3]}")
+    return out
 
 
 # ---------------------------------------------------------------------------
